@@ -157,6 +157,9 @@ def _norm_ensures(X):
         ('reach', 'reach_ab(result) == reach_ab(%s)' % X),
         ('flatok', 'implies(flatok(FLAT_MODE, %s), flatok(FLAT_MODE, result))' % X),
         ('fillclean', 'implies(fillclean(%s), fillclean(result))' % X),
+        # C05 (lemma_norm_atoms of family layout): the atoms are returned as they are; the empty text becomes NIL
+        ('atoms', 'implies(%s is NIL or %s is HARDLINE or (isinstance(%s, str) and len(%s) > 0), result == %s)' % (X, X, X, X, X)),
+        ('empty', 'implies(isinstance(%s, str) and len(%s) == 0, result is NIL)' % (X, X)),
     ]
 
 
